@@ -27,7 +27,7 @@ Classes == {"r_zero", "s_zero", "high_s_rej", "high_s_acc", "x_ge_n", "R_inf", "
             "digest_long", "accept", "reject", "enc_asn1", "enc_compact", "enc_rec", "enc_bogus", "rec_wrong_v", "btc_accept",
             "btc_badenv", "btc_high_s", "hash_mismatch", "parse_reject", "alt_path", "nil_opts",
             "d_one", "d_nm1", "pub_yodd", "pub_yeven", "digest_zero", "digest_ones", "neg_s", "noneg_s", "v0", "v1",
-            "sv_same", "inadmissible_len", "inadmissible_enc", "rfc6979", "hedged", "sign_len_long",
+            "sv_same", "build_der", "build_short", "build_compact", "inadmissible_len", "inadmissible_enc", "rfc6979", "hedged", "sign_len_long",
             "reader_short_reads", "reader_fail_0", "reader_fail_mid", "reader_fail_31", "reader_err_with_last", "reader_ok",
             "same_triple", "entropy_one_byte_diff", "constant_entropy_diff_msg",
             "sample_first", "sample_after_zero", "sample_after_ge_n", "sample_exhausted", "sample_short", "sample_edge_accept",
@@ -169,6 +169,12 @@ Verdict(ev) ==
                /\ \E v \in 0..3 : SigIsSignOutput(d, e, p[2], p[3], v),
                EncClass(eff) \cup {"sv_same"} \cup (IF Len(dg) > W THEN {"sign_len_long"} ELSE {})
                \cup (IF ev.optkind = "nil" THEN {"nil_opts"} ELSE {}) \cup DigestClasses(ev.digest) >>
+    [] ev.ev = "der.Build" ->           \* the encoder Sign uses: canonical DER and it parses back
+         LET r == H(ev.r)  s == H(ev.s)  want == BuildDerSig(r, s) IN
+         << HB(ev.out) = want /\ ParseDerSig(want) = <<"ok", r, s>> /\ ev.reparsed,
+            {"build_der"} \cup (IF (r \prec Pow2(8 * W - 16)) \/ (s \prec Pow2(8 * W - 16)) THEN {"build_short"} ELSE {}) >>
+    [] ev.ev = "cmp.Build" ->
+         << HB(ev.out) = BuildCompactRec(H(ev.r), H(ev.s), ev.v) /\ ev.reparsed, {"build_compact"} >>
     (* ---------------- C09 ---------------- *)
     [] ev.ev = "nonce.Sample" ->
          LET sm == SampleFrom(ev.stream, 1) IN
